@@ -7,7 +7,7 @@ ID = "C11"
 THEOREMS = ["streams_immutable", "siblings_independent", "step_appends", "inv_run"]
 LEANCHECKER_MODULES = ["Fadl.Props.C11", "Fadl.Lemmas.StreamInv"]  # re-checked by leanchecker in the thorough tier
 EXPLANATION = ("Theorems (over the heap model of the stream plumbing, Model/Stream.lean): every operation only appends cells and stream objects (step_appends); for every well-formed history and every continuation, each existing stream is the same object with the same item type and the same query field tree afterwards (streams_immutable), and its visible query metadata is unchanged (siblings_independent). Correspondence: every observation (query tree, item type, executor, lookups, call log) after every step of generated histories, real library vs compiled Lean state machine. Oracle: ast.dump + item_type snapshot of every live stream compared after every step.")
-ASSUMPTIONS = ["lambdas are modelled as immutable values: a user-owned ast.Lambda OBJECT passed to several operator calls is outside the model (known finding F10, exercised by a dedicated oracle)", "the type follower's in-place edits inside fresh lambda nodes are invisible to other streams (fresh nodes per call)"]
+ASSUMPTIONS = ["lambdas are modelled as immutable values: a user-owned ast.Lambda OBJECT passed to several operator calls is outside the model (the library copies such a lambda since the repair of C11-shared-ast-lambda-object; exercised by a dedicated oracle)", "the type follower's in-place edits inside fresh lambda nodes are invisible to other streams (fresh nodes per call)"]
 RULE = (
     "seeded histories (harness/streams.py: gen_history) of 4-20 operations over a forest of streams on 1-4 datasets "
     "(root EventDataset(...) nodes with 0-2 extra arguments): "
